@@ -1,1 +1,134 @@
-pub fn run() { unimplemented!() }
+//! S3 helper: `ToHtml`, `Html`, `HtmlBuffer`, `to_buffer` of the *library* copy of utils.rs
+//! against scheduled sinks and chunking Display values.
+//! case:   <wrapper D|H|B|BB> <pieces hex,hex,..|-> <schedule tokens aN|i|fN,..|->
+//! result: <hex of accepted bytes> <ok|wz|ioN|other:..> [<hex buffer> <eq flags>]
+use crate::{hex, unhex};
+use ructe::templates::{Html, ToHtml};
+use std::fmt;
+use std::io::{self, BufRead, Write};
+
+struct Pieces(Vec<String>);
+impl fmt::Display for Pieces {
+    fn fmt(&self, f: &mut fmt::Formatter) -> fmt::Result {
+        for p in &self.0 {
+            f.write_str(p)?;
+        }
+        Ok(())
+    }
+}
+
+enum Resp {
+    Accept(usize),
+    Interrupted,
+    Fail(u32),
+}
+struct Sink {
+    sched: std::collections::VecDeque<Resp>,
+    log: Vec<u8>,
+}
+impl Write for Sink {
+    fn write(&mut self, d: &[u8]) -> io::Result<usize> {
+        match self.sched.pop_front() {
+            None => {
+                self.log.extend_from_slice(d);
+                Ok(d.len())
+            }
+            Some(Resp::Accept(k)) => {
+                let n = k.min(d.len());
+                self.log.extend_from_slice(&d[..n]);
+                Ok(n)
+            }
+            Some(Resp::Interrupted) => Err(io::Error::new(io::ErrorKind::Interrupted, "int")),
+            Some(Resp::Fail(e)) => Err(io::Error::new(io::ErrorKind::Other, format!("E{e}"))),
+        }
+    }
+    fn flush(&mut self) -> io::Result<()> {
+        Ok(())
+    }
+}
+
+fn res_str(r: io::Result<()>) -> String {
+    match r {
+        Ok(()) => "ok".into(),
+        Err(e) if e.kind() == io::ErrorKind::WriteZero => "wz".into(),
+        Err(e) => {
+            let m = e.to_string();
+            match m.strip_prefix('E') {
+                Some(n) if e.kind() == io::ErrorKind::Other => format!("io{n}"),
+                _ => format!("other:{:?}", e.kind()),
+            }
+        }
+    }
+}
+
+pub fn run() {
+    let stdin = io::stdin();
+    let out = io::stdout();
+    let mut out = out.lock();
+    for line in stdin.lock().lines() {
+        let line = line.unwrap();
+        let f: Vec<&str> = line.split(' ').collect();
+        let pieces: Vec<String> = if f[1] == "-" {
+            vec![]
+        } else {
+            f[1].split(',').map(|p| String::from_utf8(unhex(p)).unwrap()).collect()
+        };
+        let mut sink = Sink { sched: Default::default(), log: vec![] };
+        if f[2] != "-" {
+            for t in f[2].split(',') {
+                sink.sched.push_back(match &t[..1] {
+                    "a" => Resp::Accept(t[1..].parse().unwrap()),
+                    "i" => Resp::Interrupted,
+                    _ => Resp::Fail(t[1..].parse().unwrap()),
+                });
+            }
+        }
+        let v = Pieces(pieces);
+        let r = std::panic::catch_unwind(std::panic::AssertUnwindSafe(|| match f[0] {
+            "D" => (v.to_html(&mut sink), None),
+            "H" => (Html(&v).to_html(&mut sink), None),
+            "B" => {
+                let b = v.to_buffer().unwrap();
+                let r = b.to_html(&mut sink);
+                (r, Some(b))
+            }
+            "HB" => {
+                let b = Html(&v).to_buffer().unwrap();
+                let r = b.to_html(&mut sink);
+                (r, Some(b))
+            }
+            _ => {
+                let b = v.to_buffer().unwrap().to_buffer().unwrap();
+                let r = b.to_html(&mut sink);
+                (r, Some(b))
+            }
+        }));
+        match r {
+            Err(_) => writeln!(out, "PANIC").unwrap(),
+            Ok((r, None)) => writeln!(out, "{} {}", hex(&sink.log), res_str(r)).unwrap(),
+            Ok((r, Some(b))) => {
+                let bytes: &[u8] = b.as_ref();
+                let copy = bytes.to_vec();
+                let eq_b = b == &copy[..];
+                let mut other = copy.clone();
+                other.push(b'x');
+                let ne_b = b == &other[..];
+                let eq_s = match std::str::from_utf8(&copy) {
+                    Ok(s) => b == s,
+                    Err(_) => true,
+                };
+                writeln!(
+                    out,
+                    "{} {} {} {}{}{}",
+                    hex(&sink.log),
+                    res_str(r),
+                    hex(&copy),
+                    eq_b as u8,
+                    ne_b as u8,
+                    eq_s as u8
+                )
+                .unwrap()
+            }
+        }
+    }
+}
